@@ -6,7 +6,7 @@ CONSTANTS
   PanicJobs = {"j3"}
   Caught = FALSE
   DriverLoop = FALSE
-  Fix = FALSE
+  Fix = TRUE
   TimedFifo = FALSE
 SPECIFICATION FairSpec
-PROPERTIES SendCompletesModuloKnown AcceptedRuns AllRunModuloKnown
+PROPERTIES DispatchReturns SendCompletes AcceptedRuns AllRun
